@@ -4,3 +4,4 @@ pub mod bitops;
 pub mod prim;
 pub mod glue;
 pub mod zoo;
+pub mod frontend;
